@@ -616,6 +616,23 @@ func GenTypes(t *rapid.T, o *Opts) *Spec {
 			o.class("feature:tagged_embedded_struct_next_to_a_union_field")
 		}
 	}
+	if o.EmbedUnionIface && o.Unions >= 1 && rapid.IntRange(0, 3).Draw(t, "embedUnionIface") == 0 {
+		// directed (compile-only properties): a struct that embeds an exported union interface of its package; the method
+		// set of the interface is promoted, so the struct is itself a member of the union it embeds
+		var us []*tinfo
+		for _, ti := range g.types {
+			if ti.cat == "union" && ti.pkg == root && ti.exported && len(g.spec.Unions()[root.Path][ti.d.Name].Members) > 0 {
+				us = append(us, ti)
+			}
+		}
+		if len(us) > 0 {
+			u := us[rapid.IntRange(0, len(us)-1).Draw(t, "euiUnion")]
+			outer := &Decl{Kind: KStruct, Name: g.freshName(root, "euiOuter", true), Fields: []*Field{
+				{Name: u.d.Name, Type: g.refTo(root, u), Embedded: true}, {Name: "Zname", Type: Basic("string")}}}
+			g.newDecl(root, root.Files[0], outer, &tinfo{cat: "struct", hasUnion: true})
+			o.class("feature:embedded_union_interface")
+		}
+	}
 	if o.RecursiveUnions && rapid.IntRange(0, 2).Draw(t, "recursiveUnion") == 0 {
 		// a recursive union: a struct member holds a value of the union it belongs to (type Add struct{ Left, Right Expr })
 		type pair struct {
